@@ -108,6 +108,14 @@ Theorem C16_repeat_unroll :
 Proof. exact repeat_unroll. Qed.
 Print Assumptions C16_repeat_unroll.
 
+(* fuel_sufficient: the theorem above is not about two out-of-fuel results: with fuel S f and a body
+   whose '.repeat's nest at most f deep ([depth]), neither side runs out of fuel *)
+Theorem C16_fuel_sufficient :
+  forall f env n body a, (depth body <= f)%nat ->
+    outcome_of (repeat_model (S f) env n body a) <> OFuel /\ outcome_of (unrolled (S f) env n body a) <> OFuel.
+Proof. exact fuel_sufficient. Qed.
+Print Assumptions C16_fuel_sufficient.
+
 Theorem C16_fresh_body_coherent :
   forall F b, nf_block b = b -> coh_block F b.
 Proof. exact coh_block_fresh. Qed.
